@@ -96,7 +96,7 @@ package filesystem
 // list / its issuer's subscriber list. No index or slice expression can fail, whatever the artifact file contains.
 //@ func (*FsDb).importCertConfigFile returns (err)
 //@   bounded TestVerifBoundedArtifactBytes
-//@   props C18 C20
+//@   props C18 C20 C13 C10 C11
 //@   uses strings.smt2
 //@   requires MAPS
 //@   requires forall a string :: has(fsdb.fsMetadata, a) ==> fsdb.fsMetadata[a] != nil && contains(deref(fsdb.fsMetadata[a]).configFileName, ".")
@@ -108,6 +108,14 @@ package filesystem
 //@   ensures @C18,C20 MAPS
 //@   ensures @C18,C20 forall a string :: has(fsdb.fsMetadata, a) ==> fsdb.fsMetadata[a] != nil && contains(deref(fsdb.fsMetadata[a]).configFileName, ".")
 //@   let NEW = !old(has(fsdb.fsMetadata, ALIAS))
+// the stored configuration hash is read back from the artifact file: the base64 text between the first "#HASH:" and the
+// end of that line (C13, C10, C11: change detection compares against exactly what exportPemFile wrote)
+//@   ghostret ART Slice = callres("io.ReadAll", 1, 0)
+//@   ghostret HIX Int = callres("bytes.Index", 1, 0)
+//@   ghostret HEND Int = callres("bytes.IndexRune", 1, 0)
+//@   let HTXT = bytesStr(bsub(ART, HIX + 6, HIX + HEND))
+//@   ensures @C13,C10,C11 NEW && bound(ART) && bound(HIX) && bound(HEND) && HIX >= 0 && HEND >= 0 && isB64(HTXT) ==> bytes(deref(fsdb.fsMetadata[ALIAS]).LastConfigHash) == b64dec(HTXT)
+//@   ensures @C13,C10,C11 NEW && bound(HIX) && HIX < 0 ==> deref(fsdb.fsMetadata[ALIAS]).LastConfigHash == nil
 //@   let RL = old(len(fsdb.rootAliases))
 //@   let SL = old(if has(fsdb.subscribersOf, certContent.Issuer) then len(fsdb.subscribersOf[certContent.Issuer]) else 0)
 //@   ensures @C18 NEW && certContent.Issuer == "" ==> len(fsdb.rootAliases) == RL + 1 && fsdb.rootAliases[RL] == ALIAS && (forall k in [0, RL) :: fsdb.rootAliases[k] == old(fsdb.rootAliases[k]))
